@@ -108,11 +108,11 @@ func specRel(opts []layers.TCPOption, a int, o int, isn uint32) uint32 {
 //@ ensures[C09.xor]         (ret0 == nil) != (ret1 == nil)
 //@ ensures[C09.class]       ret1 != nil ==> chain(ret1, *common.ReceiveProbeNoPktError) || chain(ret1, *common.BadPacketError) || chain(ret1, *NotSupportedError)
 //@ ensures[C09+C20.nosack]  ret1 != nil && chain(ret1, *NotSupportedError) ==> specOnConn(s, parser) && !exists(a, 0, len(parser.TCP.Options), specSackOpt(parser.TCP.Options, a) && len(parser.TCP.Options[a].OptionData) >= 8)
-//@ ensures[C01+C11.sound.kind]  ret0 != nil ==> specIsTCP(parser) || specIsTE4(parser)
-//@ ensures[C01+C11.sound.ack]   ret0 != nil && specIsTCP(parser) ==> specOnConn(s, parser) && specInRange(s, uint32(ret0.TTL)) && s.sendTimes[ret0.TTL] != 0
-//@ ensures[C01+C11.sound.ack.min] ret0 != nil && specIsTCP(parser) ==> forall(a, 0, len(parser.TCP.Options), forall(o, 0, len(parser.TCP.Options[a].OptionData)-7, specSackOpt(parser.TCP.Options, a) && o%8 == 0 ==> int(ret0.TTL) <= int(uint32(int(be32(parser.TCP.Options[a].OptionData, o)) - int(s.state.localInitSeq)))))
-//@ ensures[C01+C11.sound.ack.att] ret0 != nil && specIsTCP(parser) ==> exists(a, 0, len(parser.TCP.Options), exists(o, 0, len(parser.TCP.Options[a].OptionData)-7, specSackOpt(parser.TCP.Options, a) && o%8 == 0 && int(ret0.TTL) == int(uint32(int(be32(parser.TCP.Options[a].OptionData, o)) - int(s.state.localInitSeq)))))
-//@ ensures[C01+C11.sound.te]    ret0 != nil && specIsTE4(parser) ==> specFlowTE(s, parser) && specQuotedRel(s, parser) == uint32(ret0.TTL) && specInRange(s, uint32(ret0.TTL)) && s.sendTimes[ret0.TTL] != 0
+//@ ensures[C01+C05+C11.sound.kind]  ret0 != nil ==> specIsTCP(parser) || specIsTE4(parser)
+//@ ensures[C01+C05+C11.sound.ack]   ret0 != nil && specIsTCP(parser) ==> specOnConn(s, parser) && specInRange(s, uint32(ret0.TTL)) && s.sendTimes[ret0.TTL] != 0
+//@ ensures[C01+C05+C11.sound.ack.min] ret0 != nil && specIsTCP(parser) ==> forall(a, 0, len(parser.TCP.Options), forall(o, 0, len(parser.TCP.Options[a].OptionData)-7, specSackOpt(parser.TCP.Options, a) && o%8 == 0 ==> int(ret0.TTL) <= int(uint32(int(be32(parser.TCP.Options[a].OptionData, o)) - int(s.state.localInitSeq)))))
+//@ ensures[C01+C05+C11.sound.ack.att] ret0 != nil && specIsTCP(parser) ==> exists(a, 0, len(parser.TCP.Options), exists(o, 0, len(parser.TCP.Options[a].OptionData)-7, specSackOpt(parser.TCP.Options, a) && o%8 == 0 && int(ret0.TTL) == int(uint32(int(be32(parser.TCP.Options[a].OptionData, o)) - int(s.state.localInitSeq)))))
+//@ ensures[C01+C05+C11.sound.te]    ret0 != nil && specIsTE4(parser) ==> specFlowTE(s, parser) && specQuotedRel(s, parser) == uint32(ret0.TTL) && specInRange(s, uint32(ret0.TTL)) && s.sendTimes[ret0.TTL] != 0
 //@ ensures[C01.addr]        ret0 != nil ==> ret0.IP == packets.SpecOuterSrc(parser)
 //@ ensures[C02.compl.te]    specPlain4(parser) && specFlowTE(s, parser) && specInRange(s, specQuotedRel(s, parser)) && s.sendTimes[specQuotedRel(s, parser)] != 0 ==> ret0 != nil && uint32(ret0.TTL) == specQuotedRel(s, parser)
 //@ ensures[C04.dest]        ret0 != nil ==> (ret0.IsDest == (specIsTCP(parser) || packets.SpecOuterSrc(parser) == s.params.Target.Addr()))
@@ -149,6 +149,8 @@ func specRel(opts []layers.TCPOption, a int, o int, isn uint32) uint32 {
 //@ ensures[C20.hs.class]    ret0 != nil && chain(ret0, *NotSupportedError) ==> ncalls("(*sackDriver).handleHandshake") > old(ncalls("(*sackDriver).handleHandshake")) && chain(lastres("(*sackDriver).handleHandshake", 0), *NotSupportedError)
 //@ modifies *, ghost clock, ghost ioFail
 //@ loop 1 invariant[calls] ncalls("(*sackDriver).handleHandshake") >= old(ncalls("(*sackDriver).handleHandshake"))
+// the wait ends with the deadline: an iteration whose read hit the read deadline never loops again
+//@ loop 1 step[C08.hs.deadline.exit] ncalls(ReadAndParse) == iter(ncalls(ReadAndParse)) + 1 ==> !isDeadline(lastres(ReadAndParse, 0))
 
 // dialSackTCP: the only place a TCP connection to the target is opened. It returns an open connection or an error.
 //@ func dialSackTCP
@@ -171,7 +173,8 @@ func specRel(opts []layers.TCPOption, a int, o int, isn uint32) uint32 {
 //@ ensures[C10.sack.atom]     ret1 != nil ==> ret0 == nil
 //@ ensures[C10.sack.result]   ret1 == nil ==> ret0 != nil
 //@ ensures[C10.sack.closed]   forallint(h, !old(selb(isOpen, h)) ==> !selb(isOpen, h))
-//@ ensures[C10.sack.others]   forallint(h, old(selb(isOpen, h)) ==> selb(isOpen, h) && sel(closeN, h) == old(sel(closeN, h)))
+//@ ensures[C10.sack.others.open]  forallint(h, old(selb(isOpen, h)) ==> selb(isOpen, h))
+//@ ensures[C10.sack.others.count] forallint(h, old(selb(isOpen, h)) ==> sel(closeN, h) == old(sel(closeN, h)))
 //@ ensures[C20.sack.dial]     ncalls(dialSackTCP) == old(ncalls(dialSackTCP)) + 1 && lastres(dialSackTCP, 1) != nil ==> ret1 != nil && chain(ret1, *NotSupportedError)
 //@ ensures[C20.sack.filter]   ncalls(Source.SetPacketFilter) > old(ncalls(Source.SetPacketFilter)) && lastres(Source.SetPacketFilter, 0) != nil ==> ret1 != nil && !chain(ret1, *NotSupportedError)
 //@ ensures[C20.sack.hs]       ncalls("(*sackDriver).ReadHandshake") == old(ncalls("(*sackDriver).ReadHandshake")) + 1 && lastres("(*sackDriver).ReadHandshake", 0) != nil ==> ret1 != nil && chain(ret1, *NotSupportedError) == chain(lastres("(*sackDriver).ReadHandshake", 0), *NotSupportedError)
@@ -197,6 +200,8 @@ func specRel(opts []layers.TCPOption, a int, o int, isn uint32) uint32 {
 //@ requires[pre.len]      s.state != nil ==> len(s.sendTimes) == int(s.params.ParallelParams.MaxTTL)+1
 //@ requires[pre.past]     forall(k, 0, len(s.sendTimes), s.sendTimes[k] <= now())
 //@ ensures[C06.once]      ret0 == nil ==> specInv(s) && specInRange(s, uint32(ttl)) && old(s.sendTimes[ttl]) == 0 && s.sendTimes[ttl] != 0
+// the probe is registered (matchable by the receiver) before it is on the wire: a reply can never overtake its own bookkeeping
+//@ before Sink.WriteTo assert[C02+C05.send.registered] s.sendTimes[ttl] != 0
 //@ ensures[C06.others]    forall(k, 0, len(s.sendTimes), k != int(ttl) ==> s.sendTimes[k] == old(s.sendTimes[k]))
 //@ ensures[C05.stamp]     ret0 == nil ==> wrN == old(wrN)+1 && s.sendTimes[ttl] <= wrClock && s.sendTimes[ttl] >= old(now())
 //@ ensures[C05.past]      forall(k, 0, len(s.sendTimes), s.sendTimes[k] <= now())
